@@ -806,6 +806,175 @@ def rule_castle_wall(h: int, w: int, arrow: List[List[str]], inside: List[List[O
 
 
 # quarter triangles of a cell: N, E, S, W (apex at the cell centre); a triangle of type k blackens two of them
+def rule_simpleloop(h: int, w: int, blocked: List[List[int]], pivot: Cell) -> Callable[[Sequence[bool]], bool]:
+    """one loop through exactly the cells that are not blocked (no line at all when every cell is blocked).  The instance is
+    well-formed when the pivot cell's entry agrees with the parity the solver derives for it (a loop on a grid visits an even number
+    of cells) - only such instances are listed"""
+    edges = frame_edges(h - 1, w - 1)
+    free = {c for c in cells(h, w) if blocked[c[0]][c[1]] == 0}
+
+    def ok(pat: Sequence[bool]) -> bool:
+        if not single_loop_or_empty(edges, pat):
+            return False
+        return {c for e, b in zip(edges, pat) if b for c in e} == free
+
+    return ok
+
+
+def rule_magnets(h: int, w: int, to_right: List[List[bool]], to_down: List[List[bool]], cond_row: List[List[int]],
+                 cond_col: List[List[int]]) -> Callable[[Sequence[bool]], bool]:
+    """answer = the '+' grid then the '-' grid.  Every domino is blank or carries one '+' and one '-'; equal poles never touch
+    orthogonally; the row/column clues count the '+' and the '-' cells"""
+    dominoes = [((y, x), (y, x + 1)) for y in range(h) for x in range(w) if to_right[y][x]]
+    dominoes += [((y, x), (y + 1, x)) for y in range(h) for x in range(w) if to_down[y][x]]
+
+    def ok(pat: Sequence[bool]) -> bool:
+        plus, minus = grid_of(h, w, pat[: h * w]), grid_of(h, w, pat[h * w:])
+        for c in cells(h, w):
+            if plus[c] and minus[c]:
+                return False
+            for d in nb4(h, w, c):
+                if (plus[c] and plus[d]) or (minus[c] and minus[d]):
+                    return False
+        for a, b in dominoes:
+            if plus[a] != minus[b] or minus[a] != plus[b]:
+                return False
+        for y in range(h):
+            if cond_row[y][0] >= 0 and sum(plus[(y, x)] for x in range(w)) != cond_row[y][0]:
+                return False
+            if cond_row[y][1] >= 0 and sum(minus[(y, x)] for x in range(w)) != cond_row[y][1]:
+                return False
+        for x in range(w):
+            if cond_col[x][0] >= 0 and sum(plus[(y, x)] for y in range(h)) != cond_col[x][0]:
+                return False
+            if cond_col[x][1] >= 0 and sum(minus[(y, x)] for y in range(h)) != cond_col[x][1]:
+                return False
+        return True
+
+    return ok
+
+
+def rule_nanro(h: int, w: int, blocks: List[List[Cell]], num: List[List[int]]) -> Callable[[Sequence[int]], bool]:
+    """integer answers, 0 = no number.  Every region holds at least one number and each of its numbers equals how many numbered
+    cells the region has; given numbers stay; no 2x2 block of numbered cells; equal numbers never touch across a region border;
+    all numbered cells are orthogonally connected"""
+    room = {c: i for i, b in enumerate(blocks) for c in b}
+
+    def ok(pat: Sequence[int]) -> bool:
+        val = {(y, x): pat[y * w + x] for y in range(h) for x in range(w)}
+        for b in blocks:
+            k = sum(1 for c in b if val[c] != 0)
+            if k == 0 or any(val[c] not in (0, k) for c in b):
+                return False
+        for (y, x) in cells(h, w):
+            if num[y][x] > 0 and val[(y, x)] != num[y][x]:
+                return False
+            if y + 1 < h and x + 1 < w and all(val[q] != 0 for q in ((y, x), (y, x + 1), (y + 1, x), (y + 1, x + 1))):
+                return False
+            for d in nb4(h, w, (y, x)):
+                if room[d] != room[(y, x)] and val[d] != 0 and val[d] == val[(y, x)]:
+                    return False
+        return connected(h, w, {c for c in cells(h, w) if val[c] != 0})
+
+    return ok
+
+
+def rule_nurimaze(h: int, w: int, wall_vertical: List[List[int]], wall_horizontal: List[List[int]], mark: List[List[int]],
+                  start: Cell, goal: Cell) -> Callable[[Sequence[bool]], bool]:
+    """answer = the white cells.  Cells not separated by a wall share a colour; the white cells are connected and contain no loop;
+    no 2x2 block is all white or all black; S, G and every marked cell are white; the (unique) white path from S to G passes every
+    circle (mark 1) and no triangle (mark 2)"""
+
+    def ok(pat: Sequence[bool]) -> bool:
+        white = grid_of(h, w, pat)
+        for (y, x) in cells(h, w):
+            if x + 1 < w and not wall_vertical[y][x] and white[(y, x)] != white[(y, x + 1)]:
+                return False
+            if y + 1 < h and not wall_horizontal[y][x] and white[(y, x)] != white[(y + 1, x)]:
+                return False
+            if y + 1 < h and x + 1 < w:
+                four = [white[q] for q in ((y, x), (y, x + 1), (y + 1, x), (y + 1, x + 1))]
+                if all(four) or not any(four):
+                    return False
+            if mark[y][x] != 0 and not white[(y, x)]:
+                return False
+        on = {c for c in cells(h, w) if white[c]}
+        if start not in on or goal not in on or not connected(h, w, on):
+            return False
+        n_edges = sum(1 for c in on for d in nb4(h, w, c) if d in on) // 2
+        if n_edges != len(on) - 1:
+            return False
+        # the tree path from S to G
+        parent: Dict[Cell, Optional[Cell]] = {start: None}
+        st = [start]
+        while st:
+            c = st.pop()
+            for d in nb4(h, w, c):
+                if d in on and d not in parent:
+                    parent[d] = c
+                    st.append(d)
+        path = set()
+        c: Optional[Cell] = goal
+        while c is not None:
+            path.add(c)
+            c = parent[c]
+        for (y, x) in cells(h, w):
+            if mark[y][x] == 1 and (y, x) not in path:
+                return False
+            if mark[y][x] == 2 and (y, x) in path:
+                return False
+        return True
+
+    return ok
+
+
+def rule_slalom(h: int, w: int, origin: Cell, is_black: List[List[bool]], gates: List[Tuple[int, int, int, int, int]]) -> Callable[[Sequence[bool]], bool]:
+    """answer = loop edges between cell centres.  One loop through the origin and through no black cell; it crosses every gate
+    exactly once (exactly one cell of the gate is visited, and it is crossed at right angles); going round from the origin in one of
+    the two directions, the k-th gate met carries the number k whenever it carries a number (n >= 1)"""
+    edges = frame_edges(h - 1, w - 1)
+    gate_cells = []
+    for (y, x, d, ln, n) in gates:
+        gate_cells.append(([(y, x + i) for i in range(ln)] if d == 0 else [(y + i, x) for i in range(ln)], d, n))
+
+    def ok(pat: Sequence[bool]) -> bool:
+        on = [e for e, b in zip(edges, pat) if b]
+        if not on or not single_loop_or_empty(edges, pat):
+            return False
+        adj: Dict[Cell, List[Cell]] = {}
+        for a, b in on:
+            adj.setdefault(a, []).append(b)
+            adj.setdefault(b, []).append(a)
+        if origin not in adj or any(is_black[c[0]][c[1]] for c in adj):
+            return False
+        crossing: Dict[Cell, int] = {}
+        for gi, (cs, d, n) in enumerate(gate_cells):
+            hit = [c for c in cs if c in adj]
+            if len(hit) != 1:
+                return False
+            c = hit[0]
+            # at right angles: a horizontal gate (d == 0) is crossed by a vertical piece of the loop
+            if any((q[0] == c[0]) == (d == 0) for q in adj[c]):
+                return False
+            crossing[c] = gi
+        for first in adj[origin]:
+            prev, cur, k, good = origin, first, 0, True
+            while cur != origin:
+                if cur in crossing:
+                    k += 1
+                    n = gate_cells[crossing[cur]][2]
+                    if n >= 1 and n != k:
+                        good = False
+                        break
+                nxt = [q for q in adj[cur] if q != prev][0]
+                prev, cur = cur, nxt
+            if good:
+                return True
+        return False
+
+    return ok
+
+
 _SHAKA_BLACK = {0: set(), 1: {"N", "W"}, 2: {"W", "S"}, 3: {"S", "E"}, 4: {"N", "E"}}
 
 
@@ -1058,6 +1227,10 @@ def instances(tier: str) -> List[Tuple[str, tuple, dict, Callable[..., Callable[
     I += [("aquarium", (2, 3, [[(0, 0), (1, 0), (1, 1)], [(0, 1), (0, 2), (1, 2)]], [-1, -1], [-1, -1, -1]), {}, rule_aquarium),
           ("aquarium", (2, 3, [[(0, 0), (1, 0), (1, 1), (1, 2), (0, 2)], [(0, 1)]], [-1, -1], [-1, -1, -1]), {}, rule_aquarium),
           ("aquarium", (3, 2, [[(0, 0), (0, 1)], [(1, 0), (2, 0), (2, 1)], [(1, 1)]], [1, -1, 2], [-1, 2]), {}, rule_aquarium)]
+    # the cells of a tank may be listed in any order (a generator merge appends blocks): bottom-up and mixed listings
+    I += [("aquarium", (3, 1, [[(2, 0), (1, 0), (0, 0)]], [-1, -1, -1], [-1]), {}, rule_aquarium),
+          ("aquarium", (2, 2, [[(1, 0), (0, 0)], [(1, 1), (0, 1)]], [2, 0], [-1, -1]), {}, rule_aquarium),
+          ("aquarium", (3, 2, [[(2, 1), (0, 0), (1, 0), (2, 0)], [(1, 1), (0, 1)]], [-1, -1, -1], [-1, -1]), {}, rule_aquarium)]
     # yajilin (answer: loop edges + black cells)
     I += [("yajilin", (2, 3, [["..", "..", ".."], ["..", "..", ".."]]), {}, rule_yajilin),
           ("yajilin", (2, 3, [[">1", "..", ".."], ["..", "..", ".."]]), {}, rule_yajilin),
@@ -1155,6 +1328,59 @@ def instances(tier: str) -> List[Tuple[str, tuple, dict, Callable[..., Callable[
           ("shakashaka", (3, 3, [[0, None, None], [None, None, None], [None, None, None]]), {"__sound_only__": True}, rule_shakashaka)]
     if deep:
         I += [("shakashaka", (2, 3, [[None, None, None], [None, None, None]]), {}, rule_shakashaka), ("shakashaka", (3, 2, [[None, None], [2, None], [None, None]]), {}, rule_shakashaka)]
+    # simpleloop: only instances whose pivot entry agrees with the parity the solver derives for the pivot cell
+    I += [("simpleloop", (2, 2, [[0, 0], [0, 0]], (0, 0)), {}, rule_simpleloop),
+          ("simpleloop", (2, 3, [[0, 0, 0], [0, 0, 0]], (1, 2)), {}, rule_simpleloop),
+          ("simpleloop", (2, 3, [[1, 0, 0], [1, 0, 0]], (0, 0)), {}, rule_simpleloop),
+          ("simpleloop", (3, 2, [[0, 0], [0, 0], [1, 1]], (2, 1)), {}, rule_simpleloop),
+          ("simpleloop", (3, 3, [[0, 0, 0], [0, 1, 0], [0, 0, 0]], (1, 1)), {}, rule_simpleloop),
+          ("simpleloop", (3, 3, [[0, 0, 1], [0, 0, 0], [0, 0, 0]], (0, 2)), {}, rule_simpleloop),
+          ("simpleloop", (3, 3, [[0, 0, 0], [0, 1, 0], [0, 0, 0]], (2, 0)), {}, rule_simpleloop),   # pivot on the loop, last row
+          ("simpleloop", (2, 2, [[1, 1], [1, 1]], (1, 1)), {}, rule_simpleloop),                    # nothing to visit: no line at all
+          ("simpleloop", (1, 3, [[0, 0, 1]], (0, 2)), {}, rule_simpleloop),                         # free cells no loop can reach: no solution
+          ("simpleloop", (2, 3, [[0, 0, 0], [0, 1, 1]], (1, 2)), {}, rule_simpleloop)]
+    # magnets ('+' grid then '-' grid)
+    I += [("magnets", (2, 2, [[True, False], [True, False]], [[False] * 2] * 2, [[-1, -1], [-1, -1]], [[-1, -1], [-1, -1]]), {}, rule_magnets),
+          ("magnets", (2, 2, [[False] * 2] * 2, [[True, True], [False, False]], [[1, -1], [-1, 1]], [[-1, -1], [-1, 0]]), {}, rule_magnets),
+          ("magnets", (2, 3, [[True, False, False], [True, False, False]], [[False, False, True], [False] * 3], [[-1, 1], [2, -1]], [[-1, -1], [0, -1], [-1, 1]]), {}, rule_magnets),
+          ("magnets", (3, 2, [[True, False], [False, False], [False, False]], [[False, False], [True, True], [False, False]], [[0, -1], [-1, -1], [-1, 1]], [[-1, -1], [1, 1]]), {}, rule_magnets),
+          ("magnets", (1, 4, [[True, False, True, False]], [[False] * 4], [[-1, 2]], [[-1, -1]] * 4), {}, rule_magnets)]
+    # nanro (integer answers)
+    I += [("nanro", (2, 2, [[(0, 0), (0, 1)], [(1, 0), (1, 1)]], [[0, 0], [0, 0]]), {}, rule_nanro),
+          ("nanro", (2, 3, [[(0, 0), (1, 0), (1, 1)], [(0, 1), (0, 2), (1, 2)]], [[0, 0, 0], [0, 0, 0]]), {}, rule_nanro),
+          ("nanro", (2, 3, [[(0, 0), (0, 1), (0, 2)], [(1, 0), (1, 1), (1, 2)]], [[0, 0, 2], [0, 0, 0]]), {}, rule_nanro),
+          ("nanro", (3, 2, [[(0, 0), (0, 1)], [(1, 0), (2, 0), (2, 1)], [(1, 1)]], [[0, 0], [0, 0], [0, 2]]), {}, rule_nanro),
+          ("nanro", (1, 4, [[(0, 0), (0, 1)], [(0, 2), (0, 3)]], [[0, 0, 0, 0]]), {}, rule_nanro)]
+    # nurimaze (walls: 1 = wall present)
+    I += [("nurimaze", (2, 3, [[1, 1], [1, 1]], [[1, 1, 1]], [[0, 0, 0], [0, 0, 0]], (0, 0), (0, 2)), {}, rule_nurimaze),
+          ("nurimaze", (3, 3, [[1, 1], [1, 1], [1, 1]], [[1, 1, 1], [1, 1, 1]], [[0, 0, 0], [0, 0, 1], [0, 0, 0]], (0, 0), (2, 2)), {}, rule_nurimaze),
+          ("nurimaze", (3, 3, [[1, 1], [1, 1], [1, 1]], [[1, 1, 1], [1, 1, 1]], [[0, 0, 2], [0, 0, 0], [0, 0, 0]], (0, 0), (2, 2)), {}, rule_nurimaze),
+          ("nurimaze", (3, 3, [[0, 1], [1, 1], [1, 0]], [[1, 1, 1], [1, 0, 1]], [[0, 0, 0], [0, 0, 0], [0, 0, 0]], (0, 2), (2, 0)), {}, rule_nurimaze),
+          ("nurimaze", (2, 4, [[1, 1, 1], [1, 1, 0]], [[1, 1, 1, 1]], [[0, 1, 0, 0], [0, 0, 0, 0]], (1, 0), (0, 3)), {}, rule_nurimaze),
+          ("nurimaze", (4, 2, [[1], [1], [1], [1]], [[1, 1], [1, 1], [0, 1]], [[0, 0], [0, 0], [1, 0], [0, 0]], (0, 1), (3, 1)), {}, rule_nurimaze),
+          ("nurimaze", (3, 3, [[1, 1], [1, 1], [1, 1]], [[1, 1, 1], [1, 1, 1]], [[0, 0, 0], [2, 0, 0], [0, 0, 0]], (0, 0), (0, 2)), {}, rule_nurimaze)]
+    # slalom (answer: loop edges; a gate is (y, x, 0 horizontal / 1 vertical, length, number or 0))
+    _ring = [[False, False, False], [False, True, False], [False, False, False]]
+    I += [("slalom", (3, 3, (0, 0), _ring, [(0, 1, 1, 1, 1), (2, 1, 1, 1, 2)]), {}, rule_slalom),
+          ("slalom", (3, 3, (0, 0), _ring, [(0, 1, 1, 1, 2), (2, 1, 1, 1, 1)]), {}, rule_slalom),
+          ("slalom", (3, 3, (2, 2), _ring, [(0, 1, 1, 1, 2), (1, 2, 0, 1, 3), (1, 0, 0, 1, 1)]), {}, rule_slalom),
+          ("slalom", (3, 3, (2, 2), _ring, [(0, 1, 1, 1, 0), (1, 2, 0, 1, 1), (1, 0, 0, 1, 0)]), {}, rule_slalom),
+          ("slalom", (3, 3, (1, 0), _ring, [(0, 1, 1, 1, 0)]), {}, rule_slalom),
+          ("slalom", (3, 3, (0, 0), _ring, [(0, 1, 1, 1, 1), (1, 2, 0, 1, 3), (2, 1, 1, 1, 2)]), {}, rule_slalom),
+          # a gate the loop cannot cross at right angles (bottom row): no solution
+          ("slalom", (3, 3, (0, 0), [[False] * 3, [False] * 3, [True, False, False]], [(2, 1, 0, 2, 0)]), {}, rule_slalom)]
+    if deep:
+        I += [("slalom", (3, 4, (0, 0), [[False] * 4, [False, True, True, False], [False] * 4], [(0, 1, 1, 1, 0), (0, 2, 1, 1, 2), (2, 2, 1, 1, 0)]), {}, rule_slalom),
+              ("slalom", (4, 3, (3, 2), [[False] * 3, [False, True, False], [False, True, False], [False] * 3], [(1, 0, 0, 1, 1), (2, 2, 0, 1, 0)]), {}, rule_slalom)]
+    # the cells of a room may be listed in any order: every room puzzle is also run with each room's cells listed backwards
+    # (quick: the first two instances of each puzzle)
+    seen_rooms: Dict[str, int] = {}
+    for name, a, kw, rule in list(I):
+        if name in ("heyawake", "norinori", "lits", "putteria", "aquarium", "nanro") and len(a) > 2 and isinstance(a[2], list) \
+                and all(isinstance(r, list) and r and all(isinstance(c, tuple) and len(c) == 2 for c in r) for r in a[2]):
+            seen_rooms[name] = seen_rooms.get(name, 0) + 1
+            if deep or seen_rooms[name] <= 2:
+                I.append((name, a[:2] + ([list(reversed(r)) for r in a[2]],) + a[3:], kw, rule))
     # sudoku: decided through constraint-wise soundness and pairwise refutation (all boards of that order)
     I += [("sudoku", ([[1, 0, 0, 2], [0, 0, 0, 0], [0, 0, 0, 0], [3, 0, 0, 4]],), {"n": 2}, decide_sudoku),
           ("sudoku", ([[0] * 9 for _ in range(8)] + [[0, 0, 0, 0, 0, 0, 0, 0, 7]],), {"n": 3}, decide_sudoku)]
@@ -1204,6 +1430,30 @@ def _install_group_standin(w: Any) -> None:
 
     w.cw.genv["division_connected_variable_groups"] = standin
     w.cw.genv["graph.division_connected_variable_groups"] = standin
+
+    # active_vertices_connected(..., acyclic=True) has no native operator either (C20's CFG-4 decides that it never takes the native
+    # route).  Stand-in: the function itself is called with acyclic=False on the native route - which posts the connectivity operator
+    # over the graph the library infers - and a definitional operator "no cycle among the active vertices" is posted over the very
+    # same operands.  That the rank encoding used otherwise means "tree" is what C04 decides.
+    real_avc = w.cw.genv["active_vertices_connected"]
+
+    def avc(solver: Any, *a: Any, **k: Any) -> Any:
+        if not k.get("acyclic", False):
+            return real_avc(solver, *a, **k)
+        if k.get("acyclic") is not True:
+            raise Undecided("active_vertices_connected with a non-constant acyclic flag")
+        k2 = {kk: vv for kk, vv in k.items() if kk not in ("acyclic", "use_graph_primitive")}
+        before = len(solver.attrs["constraints"])
+        r = real_avc(solver, *a, acyclic=False, use_graph_primitive=True, **k2)
+        nat = [c for c in solver.attrs["constraints"][before:] if isinstance(c, Obj) and isinstance(c.attrs.get("op"), Tag)
+               and c.attrs["op"].name.endswith("GRAPH_ACTIVE_VERTICES_CONNECTED")]
+        if len(nat) != 1:
+            raise Undecided("active_vertices_connected(acyclic=True): the connectivity operator was not found for the stand-in")
+        w.cw.method(solver, "ensure")(Obj(["BoolExpr", "Expr"], op=Tag("Op.X_ACTIVE_ACYCLIC"), operands=list(nat[0].attrs["operands"]), name="X_ACTIVE_ACYCLIC"))
+        return r
+
+    w.cw.genv["active_vertices_connected"] = avc
+    w.cw.genv["graph.active_vertices_connected"] = avc
 
 
 def _job(args) -> Tuple[str, str, int]:
